@@ -479,6 +479,19 @@ class P7SocketPair(Program):
                 receiver(rec, 2, pb, 'b', [('poll', 3, 2)]), receiver(rec, 3, pb, 'b', [('poll', 2, 9), ('iter_pending',)])]
 
 
+class P1bSharedStateDevice(Program):
+    name = 'P1b-device-with-shared-buffer'
+
+    def build(self, sc, rec):
+        self.wire = Wire()
+        p = self.wrap(sc, doubles.SharedStatePort('w', wire=self.wire), 'w')
+        self.ports = {'w': p}
+        self.wires = [self.wire]
+        self.route = lambda pname: ['w']
+        return [sender(rec, 0, p, 'w', 0, (0, 1), (0, 1)), sender(rec, 1, p, 'w', 1, (0,), (2,)),
+                receiver(rec, 2, p, 'w', [('poll', 3, 9)])]
+
+
 class P3bIOPortFailingDevice(Program):
     """An IOPort whose output device refuses some writes: the send() that hit the refusal raises, every
     send() that returned normally is delivered exactly once."""
@@ -544,7 +557,7 @@ class P4cFaninTwoReceivers(Program):
 
 PROGRAMS = [P1Wire, P2Echo, P3IOPort, P4Fanout, P4Fanin, P5IterPending, P6ParserQueue, P6bParserQueuePollers,
             P7SocketPair, P6cParserQueueLong, P8ParseAll, P9PanicVsSend, P6dTwoQueues, P6eInstr, P4cFaninTwoReceivers,
-            P3bIOPortFailingDevice, P4dFanoutMemberCloses]
+            P3bIOPortFailingDevice, P4dFanoutMemberCloses, P1bSharedStateDevice]
 
 
 class LockShim:
@@ -847,8 +860,15 @@ def blocking_get_case(ctx, nconsumers, nmsgs):
     got = []
     lock = _th.Lock()
 
+    errors = []
+
     def consumer():
-        m = q.get()
+        try:
+            m = q.get()
+        except BaseException as exc:      # a blocking get() has no reason to raise
+            with lock:
+                errors.append(f'{type(exc).__name__}: {exc}')
+            return
         with lock:
             got.append(m)
     ths = [_th.Thread(target=consumer, daemon=True) for _ in range(nconsumers)]
@@ -868,6 +888,9 @@ def blocking_get_case(ctx, nconsumers, nmsgs):
     want_blocked = max(0, nconsumers - nmsgs)
     ctx.check('no empty answer while certainly queued', not (blocked > want_blocked and pending > 0),
               'parserqueue:get-blocked-with-message-pending', case, {'blocked_consumers': blocked, 'pending': pending})
+    ctx.check('no call raises', not errors, 'parserqueue:blocking-get-raised', case, errors[:2])
+    ctx.check('no empty answer while certainly queued', len(got) + len(errors) >= min(nconsumers, nmsgs) or blocked > want_blocked,
+              'parserqueue:blocking-get-returned-nothing', case, {'received_by_blocked_consumers': len(got), 'messages': nmsgs})
     ctx.check('exactly once (nothing lost, duplicated, invented)',
               sorted([m.hex() for m in got] + [m.hex() for m in q.iterpoll()]) == sorted(m.hex() for m in msgs)
               if blocked == want_blocked else True, 'parserqueue:get-lost', case, len(got))
